@@ -1,4 +1,5 @@
 //! C08 operations (write then parse preserves the rendering).
+//!   c08-idem    payload `opts\twopts\tdoc` -> {"w1":write(T),"w2":write(parse(w1)),"w3":write(parse(w2))} (texts)
 //!   c08-rt      payload `opts\twopts\tdoc` -> {"a":<dump of T>,"b":<dump of parse(write(T))> | {"error":..}}
 //!   c08-render  payload `opts\twopts\tdoc` -> {"size":[w,h],"r":[{"scale":s,"w":..,"h":..,"n12":..,"big12":..,"max12":..,
 //!                    "n23":..,"max23":..,"nonblank":..},..],"fixed2":bool,"fixed3":bool,
@@ -15,6 +16,7 @@ pub fn dispatch(op: &str, _args: &[String]) -> bool {
     match op {
         "c08-rt" => run_batch(op_rt),
         "c08-render" => run_batch(op_render),
+        "c08-idem" => run_batch(op_idem),
         _ => return false,
     }
     true
@@ -188,4 +190,28 @@ fn op_render(payload: &str) -> String {
         started.elapsed().as_millis()
     ));
     o
+}
+
+fn op_idem(payload: &str) -> String {
+    let f: Vec<&str> = payload.splitn(3, '\t').collect();
+    if f.len() < 3 {
+        return "{\"error\":\"bad payload\"}".to_string();
+    }
+    let t1 = match parse_doc(f[0], f[2]) {
+        Ok(t) => t,
+        Err(e) => return format!("{{\"error\":{}}}", esc(&e)),
+    };
+    let wo = parse_wopts(f[1]);
+    let w1 = t1.to_string(&wo);
+    let t2 = match reparse(&w1, f[0], f[2]) {
+        Ok(t) => t,
+        Err(e) => return format!("{{\"w1\":{},\"reparse\":{}}}", esc(&w1), esc(&e)),
+    };
+    let w2 = t2.to_string(&wo);
+    let t3 = match reparse(&w2, f[0], f[2]) {
+        Ok(t) => t,
+        Err(e) => return format!("{{\"w1\":{},\"w2\":{},\"reparse\":{}}}", esc(&w1), esc(&w2), esc(&e)),
+    };
+    let w3 = t3.to_string(&wo);
+    format!("{{\"w1\":{},\"w2\":{},\"w3\":{}}}", esc(&w1), esc(&w2), esc(&w3))
 }
